@@ -153,6 +153,12 @@ func (c *Ctx) intrinsic(fn *ssa.Function, name string, args []Value) (Value, boo
 			return c.goInt(int64(v)), true
 		}
 		return c.goInt(-1), true
+	case "verifMapPolicy":
+		// verifMapPolicy(k): iteration order used for every map range from now on
+		// (0 insertion order, 1 reversed, 2 rotated by one, 3 first two swapped, 4 rotated by two)
+		k, _ := c.constInt(args[0].(*Term), true)
+		c.mapPolicy = int(k)
+		return nil, true
 	case "verifBound":
 		// verifBound(quick, thorough int) int
 		return args[c.Ex.Tier], true
@@ -908,6 +914,29 @@ func registerLibModels() {
 		c.onceDone[p.C] = true
 		c.callValue(a[1], nil, nil)
 		return nil
+	}
+	// sync.Pool: a per-path LIFO of the values put (the documented contract allows any of them, or a New one)
+	m["(*sync.Pool).Put"] = func(c *Ctx, fn *ssa.Function, a []Value) Value {
+		p := a[0].(Ptr)
+		if c.pools == nil {
+			c.pools = map[*Cell][]Value{}
+		}
+		c.pools[p.C] = append(c.pools[p.C], a[1])
+		return nil
+	}
+	m["(*sync.Pool).Get"] = func(c *Ctx, fn *ssa.Function, a []Value) Value {
+		p := a[0].(Ptr)
+		if l := c.pools[p.C]; len(l) > 0 {
+			v := l[len(l)-1]
+			c.pools[p.C] = l[:len(l)-1]
+			return v
+		}
+		// field "New func() any" is the last field of sync.Pool
+		st := p.load().(*StructVal)
+		if nf, ok := st.F[len(st.F)-1].(*FuncVal); ok && nf != nil {
+			return c.callValue(nf, nil, nil)
+		}
+		return Iface{}
 	}
 	m["(*sync.WaitGroup).Add"] = nop
 	m["(*sync.WaitGroup).Done"] = nop
